@@ -47,6 +47,12 @@ MUTANTS = [
   "                hunk.remove.content.push(line);\n                header.remove_count -= 1;\n\n                there_was_a_non_context_line = true;", ["C01.hunk_wf"], ["C11"]),
  ("parser", "src/libpatch/patch/unified/parser.rs", "        if count == 0 {\n            line as isize\n        } else {", "        if false {\n            line as isize\n        } else {", ["C01.start_lines"], ["C11"]),
  ("parser", "src/libpatch/patch/unified/parser.rs", "hunk.add.content.reserve(std::cmp::min(header.add_count, input.len()));", "hunk.add.content.reserve(header.add_count);", ["parse_hunk.body"], []),
+ # parse_hunk_line (verified body since the third seed round)
+ ("parser", "src/libpatch/patch/unified/parser.rs", "Ok((take_line_incl(input)?.0, (hunk_line_type, &line[..line.len() - 1]))),",
+  "Ok((take_line_incl(input)?.0, (hunk_line_type, &line[..line.len() - 2]))),", ["C01.hunk_line", "parse_hunk_line.body"], []),
+ ("parser", "src/libpatch/patch/unified/parser.rs", "Ok((take_line_incl(input)?.0, (hunk_line_type, &line[..line.len() - 1]))),",
+  "Ok((&input[memchr::memchr(b'\\n', input).unwrap_or(input.len()) + 1..], (hunk_line_type, &line[..line.len() - 1]))),", ["parse_hunk_line.body"], []),
+ ("parser", "src/libpatch/patch/unified/mod.rs", 'b"\\\\ No newline at end of file\\n"', 'b"/ No newline at end of file\\n"', ["C01.hunk_line"], ["C11"]),
  ("pushrange", "src/rapidquilt/cmd.rs",
   "        if applied_patch_filenames.len() > series_patches.len() {\n            return Err(format_err!(\"There are more patches in \\\".pc/applied-patches\\\" than in \\\"series\\\"!\"));\n        }\n", "",
   ["push_range.body"], []),
